@@ -9,7 +9,7 @@ if ! (cd "$S" && patch -p1 -s < "$PATCH"); then echo "PATCH FAILED"; rm -rf "$S"
 export GOFLAGS=-mod=mod GOPROXY=off GOSUMDB=off GOTOOLCHAIN=local
 if ! (cd "$S" && go build ./... ); then echo "BROKEN PATCH: does not compile"; rm -rf "$S"; exit 3; fi
 mkdir -p "$S.out"
-cd /verif && VERIF_REPO="$S" VERIF_OUT="$S.out" ./check "$PROP" "$TIER" | grep -E "^(VIOLATION|RESULT|BROKEN|BUILD-FAILED|KNOWN|  what)" | head -${SEEDTEST_LINES:-8}
+cd "$(dirname "$(readlink -f "$0")")/.." && VERIF_REPO="$S" VERIF_OUT="$S.out" ./check "$PROP" "$TIER" | grep -E "^(VIOLATION|RESULT|BROKEN|BUILD-FAILED|KNOWN|  what)" | head -${SEEDTEST_LINES:-8}
 rc=${PIPESTATUS[0]}
 rm -rf "$S" "$S.out"
 exit $rc
